@@ -147,7 +147,9 @@ def check_model(group: ModelGroupType) -> None:
                 raise XMLSchemaModelError(group, msg)
 
             # UPA check
-            if pe is e or not pe.is_overlap(e):
+            if pe is e:
+                pass  # same declaration reached through two references to the same group
+            elif not pe.is_overlap(e):
                 continue
             elif pe.parent is e.parent and pe.parent is not None:
                 if pe.parent.model in ('all', 'choice'):
